@@ -184,11 +184,20 @@ fn run_project(p: &Project) -> String
 	let mut written = vec![];
 	for (n, d) in &p.files
 	{
-		if plain_name(n) { if std::fs::write(n, d).is_ok() { written.push(n.clone()); } }
+		// plain names, or relative paths of plain components below the private directory (sub/a.asm)
+		if n.split('/').all(plain_name)
+		{
+			if let Some(parent) = std::path::Path::new(n).parent() { if !parent.as_os_str().is_empty() { let _ = std::fs::create_dir_all(parent); } }
+			if std::fs::write(n, d).is_ok() { written.push(n.clone()); }
+		}
 	}
 	let src = p.files.iter().find(|(n, _)| *n == p.root).map(|(_, d)| d.clone()).unwrap_or_default();
 	let o = run_root(src, p.root.clone());
-	for n in written { let _ = std::fs::remove_file(n); }
+	for n in written
+	{
+		let _ = std::fs::remove_file(&n);
+		if let Some(parent) = std::path::Path::new(&n).parent() { if !parent.as_os_str().is_empty() { let _ = std::fs::remove_dir(parent); } }
+	}
 	fmt_obs(&o)
 }
 
@@ -332,7 +341,9 @@ fn c13_stmt(h: &mut Hist, rng: &mut Rng, allow_def: bool)
 		_ =>
 		{
 			if cur >= TOP { return; }
-			let k = *rng.pick(&[1u64, 2, 4, 8, 16]);
+			// any alignment, not only powers of two (even non-powers of two, odd values, more than one 256-byte chunk)
+			let mut k = *rng.pick(&[1u64, 2, 4, 8, 16, 2, 4, 3, 5, 6, 7, 10, 12, 24, 48, 100, 255, 256, 257, 1000]);
+			if cur + k >= TOP { k = *rng.pick(&[1u64, 2, 4]); }
 			h.text.push_str(&format!(".align {};\n", k));
 			let pad = ((k - cur % k) % k) as usize;
 			h.place(vec![0xBE; pad], false);
@@ -555,7 +566,7 @@ fn c05_stmt(p: &mut Prog, rng: &mut Rng, fwd_labels: &mut Vec<String>)
 		},
 		9 | 10 =>
 		{
-			let k = *rng.pick(&[1u64, 2, 4, 8, 256, 2, 4]);
+			let k = *rng.pick(&[1u64, 2, 4, 8, 256, 2, 4, 3, 6, 10, 12, 24, 100, 257]);
 			p.text.push_str(&format!(".align {};\n", k));
 			p.cur += (k - cur % k) % k;
 		},
@@ -752,6 +763,7 @@ fn c05x_program(rng: &mut Rng) -> Project
 				}
 				let mut own_holes: Vec<usize> = vec![];
 				let mut imp_only: Vec<usize> = vec![];
+				let mut shadow: Vec<String> = vec![];   // names private to the included file; the root may hold private constants of the same names
 				for _ in 0..2 + rng.below(4)
 				{
 					match rng.below(8)
@@ -762,20 +774,26 @@ fn c05x_program(rng: &mut Rng) -> Project
 							if rng.chance(1, 2) && !imp_pending.is_empty() { let h = x.hole(fi, t, &imp_pending, &imp_known, None); imp_only.push(h); own_holes.push(h); }
 							else
 							{
-								if (cpend.is_empty() && imp_pending.is_empty()) || rng.chance(1, 3) { let n = XName{name: x.fresh("cf"), is_label: rng.chance(1, 2), cval: xcval(rng), declared: false}; cpend.push(n); }
+								if (cpend.is_empty() && imp_pending.is_empty()) || rng.chance(1, 3) { let n = XName{name: x.fresh("cf"), is_label: rng.chance(1, 2), cval: xcval(rng), declared: false}; shadow.push(n.name.clone()); cpend.push(n); }
 								let mut unk = imp_pending.clone(); unk.extend(names_of(&cpend));
 								let h = x.hole(fi, t, &unk, &cknown, None); own_holes.push(h);
 							}
 						},
 						5 => x.filler(fi, rng),
-						6 => { let n = XName{name: x.fresh("cb"), is_label: true, cval: 0, declared: false}; x.define(fi, &n); cknown.push(n.name); },
+						6 => { let n = XName{name: x.fresh("cb"), is_label: true, cval: 0, declared: false}; x.define(fi, &n); shadow.push(n.name.clone()); cknown.push(n.name); },
 						_ => if !cpend.is_empty() { let n = cpend.remove(0); x.define(fi, &n); cknown.push(n.name); },
 					}
 				}
 				for n in cpend.drain(..) { x.define(fi, &n); }
 				// the same statements once more inside the file (its own names are defined now, the imported ones may still be open)
 				for h in own_holes { if TEMPL[x.holes[h].templ].kind == 0 && rng.chance(1, 2) { let t = x.holes[h].templ; x.hole(fi, t, &[], &[], Some(h)); } }
+				// file scope: private constants of the root with the names (and other values) of the included file's private names
+				let before = rng.chance(1, 2);
+				let mut decoys = String::new();
+				for n in shadow.iter() { if rng.chance(2, 3) { decoys.push_str(&format!(".const {}, {};\n", n, 0x5A5A00 + rng.below(200))); } }
+				if before { x.files[0].1.push_str(&decoys); }
 				x.files[0].1.push_str(".include \"c1.asm\";\n");
+				if !before { x.files[0].1.push_str(&decoys); }
 				known.extend(handed);
 				let mut imps = imp_pending; imps.extend(imp_known);
 				child = Some((imps, imp_only));
@@ -871,6 +889,29 @@ fn c05x_program(rng: &mut Rng) -> Project
 	Project{files, root: "root.asm".into()}
 }
 
+/// moves every file but the root into the directory `sub/` (the root then names them `sub/<name>`, they keep naming each
+/// other by the bare name, which must resolve against THEIR directory) and leaves a decoy of each at the old place
+fn into_subdir(p: &mut Project)
+{
+	if p.files.len() < 2 || p.files.iter().any(|(n, _)| n.contains('/')) { return; }
+	let root = p.root.clone();
+	let children: Vec<String> = p.files.iter().map(|(n, _)| n.clone()).filter(|n| *n != root).collect();
+	let ri = match p.files.iter().position(|(n, _)| *n == root) { Some(i) => i, None => return };
+	let mut text = String::from_utf8_lossy(&p.files[ri].1).into_owned();
+	for c in &children { text = text.replace(&format!("\"{}\"", c), &format!("\"sub/{}\"", c)); }
+	p.files[ri].1 = text.into_bytes();
+	let mut decoys = vec![];
+	for (n, _) in p.files.iter_mut()
+	{
+		if *n != root
+		{
+			decoys.push((n.clone(), if n.ends_with(".asm") { b".du8 0xEE;\n".to_vec() } else { vec![0xDD; 3] }));
+			*n = format!("sub/{}", n);
+		}
+	}
+	p.files.extend(decoys);
+}
+
 // ------------------------------------------------------------------ fixed cases
 fn single(src: &str) -> Project { Project{files: vec![("root.asm".into(), src.as_bytes().to_vec())], root: "root.asm".into()} }
 
@@ -903,6 +944,20 @@ fn corpus_c13() -> Vec<(Project, String)>
 	]
 }
 
+/// projects with sub-directories, with the image they must produce (a name is resolved against the file that uses it)
+fn corpus_c05_subdir() -> Vec<(Project, String)>
+{
+	let f = |n: &str, s: &str| (n.to_string(), s.as_bytes().to_vec());
+	vec![
+		(Project{files: vec![f("root.asm", ".addr 0x100; .include \"sub/a.asm\"; .du8 9;"), f("sub/a.asm", ".du8 1; .include \"b.asm\"; .dfile \"blob.bin\"; .du8 5;"),
+			f("sub/b.asm", ".du8 2;"), f("b.asm", ".du8 0xEE;"), ("sub/blob.bin".into(), vec![3, 4]), ("blob.bin".into(), vec![0xDD, 0xDD])], root: "root.asm".into()},
+			"IMG 100:010203040509".to_string()),
+		(Project{files: vec![f("root.asm", ".addr 0x200; .include \"x/y/deep.asm\"; L: .du8 L & 0xFF;"), f("x/y/deep.asm", ".dfile \"d.bin\"; .include \"z/leaf.asm\";"),
+			f("x/y/z/leaf.asm", ".du16 0x1234;"), ("x/y/d.bin".into(), vec![7]), ("d.bin".into(), vec![0xDD]), f("z/leaf.asm", ".du8 0xEE;")], root: "root.asm".into()},
+			"IMG 200:07341203".into()),
+	]
+}
+
 fn corpus_c05() -> Vec<Project>
 {
 	vec![
@@ -930,20 +985,38 @@ fn main()
 			let stream = std::env::args().nth(6).unwrap_or_else(|| "c13".into());
 			let mut sh = Shard{k: 0, shard, n: nshards};
 			let mut rng = Rng::new(seed ^ if stream == "c05" { 0x5555 } else { 0x1313 });
-			if stream == "c05"
+			if stream == "c14"
+			{
+				// C14's share of the layout stream: multi-file projects only (names handed down by .import, up by .global,
+				// private names reused across files, deferred expressions over them), judged against the multi-file reference
+				for (p, e) in corpus_c05_subdir() { if sh.mine() { let c = format!("C05 {} | {}", project_text(&p), e); let r = run_project(&p); out.line(&c, &r); } }
+				let mut rng = Rng::new(seed ^ 0x1414_0505);
+				let n = if thorough { 120_000 } else { 4_000 };
+				for _ in 0..n
+				{
+					let mut p = c05x_program(&mut rng);
+					if p.files.len() < 2 { continue; }
+					if rng.chance(1, 6) { into_subdir(&mut p); }
+					if sh.mine() { let c = format!("C05 {}", project_text(&p)); let r = run_project(&p); out.line(&c, &r); }
+				}
+			}
+			else if stream == "c05"
 			{
 				for p in corpus_c05() { if sh.mine() { let c = format!("C05 {}", project_text(&p)); let r = run_project(&p); out.line(&c, &r); } }
+				for (p, e) in corpus_c05_subdir() { if sh.mine() { let c = format!("C05 {} | {}", project_text(&p), e); let r = run_project(&p); out.line(&c, &r); } }
 				let n = if thorough { 100_000 } else { 3_000 };
 				for _ in 0..n
 				{
-					let p = c05_program(&mut rng);
+					let mut p = c05_program(&mut rng);
+					if p.files.len() > 1 && rng.chance(1, 6) { into_subdir(&mut p); }
 					if sh.mine() { let c = format!("C05 {}", project_text(&p)); let r = run_project(&p); out.line(&c, &r); }
 				}
 				let mut rng = Rng::new(seed ^ 0x0505_0505);
 				let n = if thorough { 100_000 } else { 3_000 };
 				for _ in 0..n
 				{
-					let p = c05x_program(&mut rng);
+					let mut p = c05x_program(&mut rng);
+					if p.files.len() > 1 && rng.chance(1, 6) { into_subdir(&mut p); }
 					if sh.mine() { let c = format!("C05 {}", project_text(&p)); let r = run_project(&p); out.line(&c, &r); }
 				}
 			}
